@@ -9,6 +9,7 @@
      cont <N> <K> <op> <C> <seed>        a node's count changed by container paths in one thread (C times)
                                           while N workers get/put it directly
      last <N> <R> <seed>                 R rounds: N threads release the N (= all) references of a node together
+     iso <N> <iters> <size> <seed>       N threads on disjoint objects exercising library-internal state
      sched all                           exhaustive schedules of small configurations (model side only)
      seed <N> <R> <keyhex>               N threads race on the first use of the key hash, R later uses each
      seedx <N> <R> <keyhex> <draws>      the same with the first results of the random source scripted
@@ -246,6 +247,20 @@ let run_trees n =
   done;
   Printf.sprintf "trees same=%d destroyed=%d volrd ?" !same (Array.fold_left (+) 0 acc.destroyed)
 
+(* iso: no object is shared; in the model every thread works on its own node (and hashes) *)
+let run_iso n =
+  let own i = fun (k : nat) -> if int_of_nat k = i then z_of_int 1 else Z0 in
+  let ths = List.init n (fun i -> let x = nat_of_int i in ([Hash; Get x; Get x; Put x; Hash; Put x; Put x], own i)) in
+  let st = init_state (fun _ -> z_of_int 1) ths in
+  let acc = { destroyed = Array.make n 0; hashes_rev = []; installs = 0; base = st.mem } in
+  let st = run_rr acc n st (List.init n (fun i -> i)) in
+  let diff = ref 0 in
+  for i = 0 to n - 1 do
+    if not (acc.destroyed.(i) = 1 && st.mem (RC (nat_of_int i)) = Z0) then incr diff
+  done;
+  if List.length (List.sort_uniq compare (List.map snd acc.hashes_rev)) > 1 then incr diff;
+  Printf.sprintf "iso threads=%d diff=%d volrd ?" n !diff
+
 let run line =
   match split_on ' ' line with
   | ["rc"; n; k; m; mode; l; seed] ->
@@ -253,6 +268,7 @@ let run line =
   | ["cont"; n; k; _op; c; seed] -> run_cont (int_of_string n) (int_of_string k) (int_of_string c) (int_of_string seed)
   | ["last"; n; r; _seed] -> run_last (int_of_string n) (int_of_string r)
   | "sched" :: _ -> run_sched ()
+  | ["iso"; n; _iters; _size; _seed] -> run_iso (int_of_string n)
   | ["seed"; n; r; _key] -> run_seed (int_of_string n) (int_of_string r)
   | ["seedx"; n; r; _key; dr] -> run_seed ~rnd:(rnd_of_script dr) (int_of_string n) (int_of_string r)
   | ["trees"; n; _size; _seed] -> run_trees (int_of_string n)
